@@ -504,6 +504,26 @@ func sameValue(value1 *ast.Value, value2 *ast.Value) bool {
 	if value1.Raw != value2.Raw {
 		return false
 	}
+	// list and input object literals carry their content in Children, not in Raw
+	if len(value1.Children) != len(value2.Children) {
+		return false
+	}
+	for i, child1 := range value1.Children {
+		other := value2.Children[i].Value
+		if value1.Kind == ast.ObjectValue {
+			// the order of input object fields is not significant
+			other = value2.Children.ForName(child1.Name)
+		}
+		if child1.Value == nil || other == nil {
+			if child1.Value != other {
+				return false
+			}
+			continue
+		}
+		if !sameValue(child1.Value, other) {
+			return false
+		}
+	}
 	return true
 }
 
